@@ -323,7 +323,7 @@ func Run(c *engine.Ctx) {
 	c.Add("transitions", evals)
 	c.Add("traces_validated_against_impl", evals)
 	c.Cov["credential_alphabet"] = len(alpha)
-	c.Cov["rule"] = "version(1-4) x v4 header shapes(5) x default principals(4) x {0 credentials, each single credential of a 26-shape alphabet incl. every pair of different address / authorization-data counts 0..3}; all ordered pairs of the alphabet under two headers/principals per version; sliding windows of 3-6 credentials and the whole alphabet; GetEntry/Contains/GetEntries for 7 queries per file; NewFromCCache + GetCachedTicket per version. distinct = (version, header, count, shape) files that parsed to exactly the model"
+	c.Cov["rule"] = "version(1-4) x v4 header shapes(5) x default principals(4) x {0 credentials, each single credential of a 26-shape alphabet incl. every pair of different address / authorization-data counts 0..3}; all ordered pairs of the alphabet under two headers/principals per version; sliding windows of 3-6 credentials and the whole alphabet; GetEntry/Contains/GetEntries for 7 queries per file; NewFromCCache + GetCachedTicket per version; identity of the client built from the cache for 7 default principals per version. distinct = (version, header, count, shape) files that parsed to exactly the model"
 }
 
 func hdrClass(m ccachefmt.CCache) string {
@@ -356,6 +356,50 @@ func clientFromCache(c *engine.Ctx, r *rand.Rand, cfg *config.Config, evals *int
 		r.Read(ct)
 		c.Ticket = krbmsg.Ticket{VNO: 5, Realm: c.Server.Realm, SName: krbmsg.PrincipalName{Type: 2, Names: c.Server.Components}, Enc: krbmsg.EncryptedData{EType: 17, Cipher: ct}}.Encode()
 		return c
+	}
+	// the identity of the client built from the cache is the default principal as written: name type, components
+	// (incl. a separator inside a component, none at all) and realm
+	idps := append(principals(), ccachefmt.Principal{NameType: 3, Realm: "R.COM", Components: []string{"host/x", "y"}},
+		ccachefmt.Principal{NameType: 10, Realm: "R.COM", Components: []string{"user@other.example.com"}},
+		ccachefmt.Principal{NameType: 1, Realm: "r.com", Components: []string{"User"}})
+	for v := 1; v <= 4; v++ {
+		for pi, idp := range idps {
+			*evals++
+			tgtName := []string{"krbtgt", idp.Realm}
+			tgt := mk(tgtName, idp.Realm, now+36000)
+			tgt.Client = idp
+			m := ccachefmt.CCache{Version: v, Default: idp, Creds: []ccachefmt.Credential{tgt}}
+			rec := map[string]interface{}{"version": v, "what": "identity of the client built from the cache", "default_principal": pstr(idp, v)}
+			g := new(credentials.CCache)
+			var cl *client.Client
+			var cr *credentials.Credentials
+			if pn := safe(func() {
+				if err := g.Unmarshal(ccachefmt.Write(m)); err != nil {
+					panic(err)
+				}
+				cr = g.GetClientCredentials()
+				cl, _ = client.NewFromCCache(g, cfg)
+			}); pn != "" {
+				c.Violate("client", fmt.Sprintf("client:v%d:identity-panic-or-parse-error", v), map[string]interface{}{"panic": pn}, rec)
+				continue
+			}
+			want := pstr(idp, v)
+			bad := ""
+			for name, x := range map[string]*credentials.Credentials{"GetClientCredentials": cr, "NewFromCCache": cl.Credentials} {
+				if x == nil {
+					bad = name + ":nil"
+				} else if got := gstr(x.Domain(), x.CName()); got != want {
+					bad = name + ":" + got
+				} else if x.Realm() != idp.Realm {
+					bad = name + ":realm " + x.Realm()
+				}
+			}
+			if bad != "" {
+				c.Violate("client", "client:identity-differs-from-default-principal", map[string]interface{}{"got": bad, "want": want}, rec)
+			} else {
+				c.Distinct(fmt.Sprintf("client-identity/v%d/%d", v, pi))
+			}
+		}
 	}
 	for v := 1; v <= 4; v++ {
 		creds := []ccachefmt.Credential{mk([]string{"krbtgt", "R.COM"}, "R.COM", now+36000), conf, noKvno(mk([]string{"HTTP", "a.r.com"}, "R.COM", now+3600)), mk([]string{"host", "b.r.com"}, "R.COM", now-10),
